@@ -12,8 +12,16 @@ request / response stream handlers, the sync RPC handlers and response decoders,
 smt.Verify, rmt.VerifyProof, BLS and Ed25519 verification) under recover(), a per-call deadline and an allocation
 ceiling, then its own structure-aware mutations of every valid message, decodable-but-odd blocks, and ALL byte strings
 up to length 3.  The run is a child process: a fatal runtime error is caught by the parent, attributed and the run goes on.
-A panic / hang / blow-up / crash is a violation keyed <kind>:<entry point>[:<top non-runtime frame>] with the input."""
-import json, os, re
+A panic / hang / blow-up / crash is a violation keyed <kind>:<entry point>[:<top non-runtime frame>] with the input.
+
+Beside the fuzzing run a second supervised child (`c09 scen`) executes what needs state, a second node, time or several
+goroutines: cases of WireFuzz.tla with ScenOn (tag SC: the synchronisation client against a scripted peer, single commits and
+transactions KEPT in their pools before the consumers run, bursts of 16 goroutines, repeated fields repeated 10^k times) and
+the sequences of RpcFuzz.tla (tag RQ: key types x KDF / cipher shapes, post block -> get block on a node whose consensus loop
+runs, subscribe -> server push to live / closed / non-reading clients), plus batches of 1 000 calls per stateful entry
+point with goroutines and live heap read before and after (leak:<entry>).  Sub-checks that are red on the unchanged tree
+(defect candidates) run with VERIF_EXPERIMENTAL=1 only and have keys of their own."""
+import atexit, json, os, re, signal, subprocess, time
 import common
 from common import Inconclusive, finish, log
 from props import c08
@@ -38,6 +46,88 @@ def load(path, what, p=None):
     return json.load(open(path))
 
 
+def scen_start(ctx, binp, cases, of, gts, rq_cases):
+    """the scenario run as a background process (own supervisor, own child): wall time = the longer of the two runs"""
+    e = dict(os.environ); e.update(common.GOENV)
+    e.update({"VERIF_SEED": str(ctx.seed), "VERIF_TIER": ctx.tier, "C09_GENESIS_TS": gts, "C09_RPC_SEQ_CASES": rq_cases})
+    err = open(ctx.path("c09_scen.stderr"), "w")
+    proc = subprocess.Popen([binp, "scen", cases, of], cwd=ctx.scratch, env=e, stdout=subprocess.DEVNULL, stderr=err, start_new_session=True)
+
+    def reap():
+        # whatever ends the check early (inconclusive TLC run, ...) must not leave the supervisor and its child behind
+        if proc.poll() is None:
+            try:
+                os.killpg(proc.pid, signal.SIGKILL)
+            except OSError:
+                pass
+    atexit.register(reap)
+    return proc
+
+
+def scen_wait(ctx, proc, of, t0):
+    try:
+        rc = proc.wait(timeout=3600)
+    except subprocess.TimeoutExpired:
+        os.killpg(proc.pid, signal.SIGKILL)
+        raise Inconclusive("the scenario run did not finish")
+    log("[run] c09 scen rc=%d %.1fs (in parallel)" % (rc, time.time() - t0))
+    if not os.path.exists(of):
+        tail = open(ctx.path("c09_scen.stderr"), errors="replace").read()[-1500:]
+        raise Inconclusive("c09 scenario run wrote no result (rc=%d): %s" % (rc, tail))
+    return json.load(open(of))
+
+
+def merge_scen(res, scen):
+    """one result object: counters add up, violations / errors / samples are joined, the scenario run's info is kept apart"""
+    for k in ("evaluations", "distinct_nontrivial", "distinct_hashed", "distinct_exhaustive"):
+        res[k] = res.get(k, 0) + scen.get(k, 0)
+    for k in ("per_entry", "per_origin", "violation_counts"):
+        for kk, v in (scen.get(k) or {}).items():
+            res[k][kk] = res[k].get(kk, 0) + v
+    for kk, v in (scen.get("verdicts") or {}).items():
+        d = res["verdicts"].setdefault(kk, {})
+        for t, c in v.items():
+            d[t] = d.get(t, 0) + c
+    res["violations"] = (res.get("violations") or []) + (scen.get("violations") or [])
+    res["harness_errors"] = (res.get("harness_errors") or []) + (scen.get("harness_errors") or [])
+    res["disabled"] = dict(res.get("disabled") or {}, **(scen.get("disabled") or {}))
+    res["samples"] = (res.get("samples") or []) + (scen.get("samples") or [])
+    res["scen"] = scen.get("info") or {}
+    res["scen_incomplete"] = bool(scen.get("incomplete"))
+    return res
+
+
+def scen_guards(ctx, res, n_sc, n_rq):
+    """non-vacuity of the scenario run: a run in which a scenario never happened is inconclusive, not a pass"""
+    sc = res["scen"]
+    if res.get("scen_incomplete"):
+        raise Inconclusive("the scenario run did not complete: %s" % sc.get("incomplete"))
+    exp = os.environ.get("VERIF_EXPERIMENTAL") == "1"
+    def need(cond, what):
+        if not cond:
+            raise Inconclusive("scenario run vacuous: " + what)
+    s = sc.get("sync_client") or {}
+    need((s.get("reached") or {}).get("fast", 0) >= 8 and (s.get("reached") or {}).get("block", 0) >= 8, "the scripted peer was hardly asked: %s" % s.get("reached"))
+    need((s.get("outcomes") or {}).get("ok", 0) >= 2, "the honest scripts did not end on the peer's chain: %s" % s.get("outcomes"))
+    need(sum((s.get("outcomes") or {}).values()) + len(s.get("gated_behind_VERIF_EXPERIMENTAL") or []) >= n_sc.get("syncc", 0), "sync client cases not run")
+    c = sc.get("commit_scenarios") or {}
+    need(c.get("admitted_to_the_pool", 0) >= 50 and c.get("aggregates_built_from_the_pool", 0) >= 5 and c.get("next_block_with_that_aggregate_applied", 0) >= 3,
+         "single commits were not kept / aggregated / carried by a block: %s" % c)
+    t = sc.get("txpool_scenarios") or {}
+    need(t.get("in_the_pool_after_feeding", 0) >= 50 and t.get("removed_by_reorg", 0) >= 5 and t.get("processable_after_reorg", 0) >= 20, "transaction pool scenarios: %s" % t)
+    b = sc.get("burst_calls") or {}
+    need(len(b) >= 5 and min(b.values()) >= 1000, "bursts: %s" % b)
+    l = sc.get("leak_batches") or {}
+    need(l.get("entries_measured", 0) >= 15, "leak batches: %s entries" % l.get("entries_measured"))
+    a = sc.get("amplification") or {}
+    need(a.get("calls", 0) >= 100 and a.get("growth_ratios_judged", 0) >= 5 and a.get("largest_input_bytes", 0) >= 1 << 20, "amplification: %s" % a)
+    q = sc.get("rpc_sequences") or {}
+    need(q.get("cases", 0) == n_rq and q.get("posted_blocks_applied_by_the_consensus_loop", 0) >= 1 and q.get("pushes_received_by_live_clients", 0) >= 10
+         and q.get("kdf_runs_on_stored_parameters", 0) >= 5, "RPC sequences: %s" % {k: v for k, v in q.items() if k != "outcomes"})
+    hv = (res["verdicts"].get("p2p.onRequest") or {})
+    need(hv.get("handled", 0) >= 20 and hv.get("banned", 0) >= 20, "the request stream handler never ran a handler / never banned: %s" % hv)
+
+
 def run(ctx):
     binp, ntypes = prepare(ctx)
     if ctx.replay:
@@ -49,6 +139,47 @@ def run(ctx):
     p = ctx.run([binp, "bases", bf], timeout=300)
     bases = load(bf, "bases", p)
     gts = str(bases["genesis_ts"])
+    # ---- scenario cases (WireFuzz.tla with ScenOn: a few hundred states) and the RPC surface (RpcFuzz.tla, methods read from
+    #      the node): both small; the scenario run starts now and works while TLC enumerates the wire cases
+    rs = ctx.tlc("WireFuzz", "WireFuzz_scen" if quick else "WireFuzz_scenfull", workers=4, timeout=600, files={"bases.json": bf}, java_opts="-Xss64m")
+    if rs["violation"]:
+        raise Inconclusive("WireFuzz.tla (scenario cases) fails at spec level: %s" % rs["outpath"])
+    scen_cases = ctx.path("scen_cases.ndjson")
+    n_sc = {}
+    with open(scen_cases, "w") as fh:
+        for d in ctx.dumps(rs["out"], "SC"):
+            d["t"] = "SC"
+            n_sc[d["s"]] = n_sc.get(d["s"], 0) + 1
+            fh.write(json.dumps(d, separators=(",", ":")) + "\n")
+    for fam, least in (("syncc", 40), ("commits", 100), ("txpool", 60), ("burst", 10), ("amp", 30)):
+        if n_sc.get(fam, 0) < least:
+            raise Inconclusive("TLC printed %d scenario cases of family %s: vacuous (%s)" % (n_sc.get(fam, 0), fam, n_sc))
+    # the surface of an RPC client (spec/RpcFuzz.tla): one state per (transport, envelope, method, params shape, field), methods
+    # as registered on the real router (bases file), and the sequences (tag RQ)
+    rr = ctx.tlc("RpcFuzz", "RpcFuzz", workers=4, timeout=300, files={"bases.json": bf})
+    if rr["violation"]:
+        raise Inconclusive("RpcFuzz.tla fails at spec level: %s" % rr["outpath"])
+    rpc_cases = ctx.path("rpc_cases.ndjson")
+    n_rpc = 0
+    with open(rpc_cases, "w") as fh:
+        for d in ctx.dumps(rr["out"], "RP"):
+            fh.write(json.dumps(d, separators=(",", ":")) + "\n"); n_rpc += 1
+    if n_rpc < 1000:
+        raise Inconclusive("RpcFuzz.tla printed %d cases only" % n_rpc)
+    rq_cases = ctx.path("rq_cases.ndjson")
+    n_rq = 0
+    with open(rq_cases, "w") as fh:
+        for d in ctx.dumps(rr["out"], "RQ"):
+            fh.write(json.dumps(d, separators=(",", ":")) + "\n"); n_rq += 1
+    if n_rq < 200:
+        raise Inconclusive("RpcFuzz.tla printed %d sequence cases only" % n_rq)
+    methods = [m["m"] for m in bases.get("methods") or []]
+    if len(methods) < 10:
+        raise Inconclusive("only %d RPC methods were found on the router" % len(methods))
+    scen_of = ctx.path("c09_scen.json")
+    scen_t0 = time.time()
+    scen_proc = scen_start(ctx, binp, scen_cases, scen_of, gts, rq_cases)
+
     r = ctx.tlc("WireFuzz", "WireFuzz_all", workers=16, timeout=900, files={"bases.json": bf}, java_opts="-Xss64m")
     if r["violation"]:
         tail = "\n".join(l for l in r["out"].splitlines() if not l.startswith('<<"'))[-1500:]
@@ -73,28 +204,26 @@ def run(ctx):
             else:
                 fams.add(d["s"])
             fh.write(json.dumps(d, separators=(",", ":")) + "\n")
-    if not ctx.violations and (n["FZ"] < 5000 or n["SH"] < 5000 or len(schemas) < 15 or len(fams) < 6):
+    if not ctx.violations and (n["FZ"] < 5000 or n["SH"] < 5000 or len(schemas) < 15 or len(fams) < 7):
         raise Inconclusive("TLC printed too few cases %s (%d schemas, %d families): vacuous" % (n, len(schemas), len(fams)))
+    if "lenp1m" not in classes or "len2p63p5" not in classes:
+        raise Inconclusive("no packed repeated field among the valid messages: the classes 'length prefix announces far more than present' are vacuous")
 
-    # ---- the surface of an RPC client (spec/RpcFuzz.tla): one state per (transport, envelope, method, params shape, field)
-    rr = ctx.tlc("RpcFuzz", "RpcFuzz", workers=4, timeout=300)
-    if rr["violation"]:
-        raise Inconclusive("RpcFuzz.tla fails at spec level: %s" % rr["outpath"])
-    rpc_cases = ctx.path("rpc_cases.ndjson")
-    n_rpc = 0
-    with open(rpc_cases, "w") as fh:
-        for d in ctx.dumps(rr["out"], "RP"):
-            fh.write(json.dumps(d, separators=(",", ":")) + "\n"); n_rpc += 1
-    if n_rpc < 1000:
-        raise Inconclusive("RpcFuzz.tla printed %d cases only" % n_rpc)
-
-    # ---- the real code
+    # ---- the real code: the fuzzing run (the scenario run has been working beside TLC since the start)
     of = ctx.path("c09_out.json")
     p = ctx.run([binp, "run", cases, of], timeout=2400, env={"C09_GENESIS_TS": gts, "C09_RPC_CASES": rpc_cases})
+    scen = scen_wait(ctx, scen_proc, scen_of, scen_t0)
     if p.returncode != 0:
+        if scen and scen.get("violations"):
+            # the scenario run saw the property violated on the real code: that verdict does not depend on the fuzzing run
+            for v in scen["violations"]:
+                ctx.violation(v["key"], v["what"], v["replay"])
+            finish(ctx, LEVEL, dict(evaluations=scen.get("evaluations", 0), distinct_nontrivial=scen.get("distinct_nontrivial", 0),
+                                    rule="scenario run only: the fuzzing run failed (rc=%d)" % p.returncode, samples=[]))
         raise Inconclusive("c09 harness failed (rc=%d): %s" % (p.returncode, (p.stderr or p.stdout)[-2000:]))
     res = load(of, "run", p)
-    if res.get("harness_errors"):
+    res = merge_scen(res, scen)
+    if res.get("harness_errors") and not res.get("violations"):
         raise Inconclusive("c09 harness: %s" % res["harness_errors"][:3])
     info = res["info"]
     if info["tlc_wire_cases"] != n["FZ"] or info["tlc_shape_cases"] != n["SH"]:
@@ -108,6 +237,8 @@ def run(ctx):
     bs = info.get("block_sequences") or {}
     if not ctx.violations and bs.get("applied", 0) + bs.get("second-rejected", 0) < 5:
         raise Inconclusive("block sequences never reach the second block of the same generator: %s" % bs)
+    if not ctx.violations:
+        scen_guards(ctx, res, n_sc, n_rq)
     per_entry = {k: v for k, v in sorted(res["per_entry"].items()) if v}
     silent = [k for k, v in res["per_entry"].items() if not v and k not in res.get("disabled", {})]
     if silent:
@@ -158,18 +289,26 @@ def run(ctx):
                spec_vs_strict_decoder=dict(agree=info["spec_vs_strict_decoder_agree"], disagree=info["spec_vs_strict_decoder_disagree"]),
                malformed_shapes_accepted=info["malformed_shapes_accepted_by"], odd_blocks=info["odd_blocks"], block_sequences=info.get("block_sequences"), rpc_cases=n_rpc, rpc_cases_run=info.get("rpc_cases_run"), rpc_outcomes=info.get("rpc_outcomes"), mutants=info["mutants"],
                entry_points_disabled_after_findings=res.get("disabled"), violation_input_counts=res["violation_counts"],
-               phase_seconds=info["phase_seconds"], exhaustive_alloc_per_call=info["exhaustive_alloc_per_call"])
+               phase_seconds=info["phase_seconds"], exhaustive_alloc_per_call=info["exhaustive_alloc_per_call"],
+               scenario_cases=n_sc, rpc_sequence_cases=n_rq, rpc_methods_from_router=methods,
+               rpc_methods_without_params_model=[m["m"] for m in bases.get("methods") or [] if not m["f"] and not m["m"].startswith(("chain_getLast", "system_", "network_", "generator_getStatus", "generator_getAllKeys"))],
+               scenario_run=res["scen"], experimental=os.environ.get("VERIF_EXPERIMENTAL") == "1")
     finish(ctx, LEVEL, cov, assumptions=[
         "absence of panics / hangs / blow-ups is established for the enumerated cases only: all strings up to length 3 (2 for non-network "
         "generated codecs in the quick tier), the TLC deviation classes on the valid messages of one node state, seeded mutations beyond",
         "valid messages come from one real node state (9 validators, 130 blocks, toy application); verifiers see the keys of that state",
-        "deadline 2 s per call (10 s for process(), 5 s for the request stream handler); allocation ceiling 64 KiB + 256 x input "
-        "(512 KiB - 8 MiB constant for entry points that touch the database or answer with stored blocks); the allocation of a call is read "
+        "deadline 2 s per call (10 s for process(), 5 s for the request stream handler); allocation ceiling 512 KiB + 1024 x input "
+        "(up to 8 MiB constant for entry points that touch the database or answer with stored blocks); the allocation of a call is read "
         "from runtime/metrics and re-measured with runtime.ReadMemStats three times before it counts; the sweep over short strings is "
         "checked for allocation as a whole",
         "the gossip / stream entry points are reached through add-only exports (pkg/p2p/export_verif_fuzz.go, pkg/consensus/sync/"
         "export_verif.go) that call the unexported handlers libp2p would call; libp2p itself is not fuzzed",
-        "agreement of accept / reject with the reference codec is reported, not judged (C08)"])
+        "agreement of accept / reject with the reference codec is reported, not judged (C08)",
+        "scenario run: a loop of the synchronisation client is a hang only when the scripted peer counted >= 80 answers to one procedure "
+        "(an expired box with fewer answers is inconclusive); leaks are judged on growth proportional to the calls in two consecutive batches "
+        "after waiting for what ends by itself; growth with the input size is judged on thread CPU time (getrusage) in three agreeing rounds; "
+        "deadlines of RPC sequences are 50 x the measured valid sequence, at least 10 s",
+        "sub-checks that are red on the unchanged tree run with VERIF_EXPERIMENTAL=1 only (listed under scenario_run.*.gated_behind_VERIF_EXPERIMENTAL)"])
 
 
 def replay(ctx, binp):
@@ -180,7 +319,7 @@ def replay(ctx, binp):
     key = rec.get("key", "")
     if p.returncode not in (0, 3) and not os.path.exists(of):
         # the stored input kills the process (fatal runtime error): that IS the recorded behaviour
-        ctx.violation(key if key.startswith("crash:") else "crash:" + rec["replay"]["entry"],
+        ctx.violation(key if key.startswith(("crash:", "alloc:")) else "crash:" + rec["replay"]["entry"],
                       "replaying the input kills the process: %s" % (p.stderr or "")[-300:].strip().splitlines()[-1:], rec["replay"])
         finish(ctx, LEVEL, dict(evaluations=1, distinct_nontrivial=1, rule="one stored (entry point, input) pair", samples=[rec["replay"]]))
     res = load(of, "replay", p)
